@@ -743,7 +743,7 @@ func TestRegressions(t *testing.T) {
 
 // rapid-drawn cases over the whole family
 func TestMutants(t *testing.T) {
-	harness.Rapid(t, 800000, 40000000, func(rt *rapid.T, c *harness.Case) { mutantCase(rt, c, false) })
+	harness.Rapid(t, 800000, 24000000, func(rt *rapid.T, c *harness.Case) { mutantCase(rt, c, false) })
 }
 
 // the same family through the whole CLI (dv, -V, torepr), so that display and
@@ -870,7 +870,7 @@ func TestFieldMutants(t *testing.T) {
 			}
 		}
 	}
-	capPerFile := harness.N(2000, 1<<30)
+	capPerFile := harness.N(2000, 40000)
 	var n, total int64
 	resume := harness.EnumResume(t.Name())
 	fi := 0
